@@ -142,7 +142,8 @@ pub fn ops(seed: u64, scale: u32) -> Vec<Op> {
         add(format!("unary_union.pair{i}"), Box::new(move || dig_mp(&unary_union(ga3.0.iter().chain(gb3.0.iter())))));
     }
     // ---- many-member inputs: hash-order dependence shows with probability 1 - 1/12!
-    for (n, step, size, tag) in [(12usize, 3.0, 1.0, "disjoint"), (12, 1.0, 1.0, "edge_sharing"), (15, 0.75, 1.0, "overlapping")] {
+    // (30 squares: 60 triangles / 180 edges - large enough for any size-dependent path inside stitching)
+    for (n, step, size, tag) in [(12usize, 3.0, 1.0, "disjoint"), (12, 1.0, 1.0, "edge_sharing"), (15, 0.75, 1.0, "overlapping"), (30, 3.0, 1.0, "disjoint_many")] {
         let sq = squares(n, step, size);
         let sq1 = sq.clone();
         add(format!("unary_union.{n}squares.{tag}"), Box::new(move || dig_mp(&unary_union(&sq1))));
@@ -189,6 +190,50 @@ pub fn ops(seed: u64, scale: u32) -> Vec<Op> {
         let k = r.range(1, 5) as f64;
         let tris = vec![t((0.0, 0.0), (2.0 * k, -2.0 * k), (4.0 * k, 0.0)), t((0.0, 0.0), (2.0 * k, 0.0), (2.0 * k, 2.0 * k)), t((2.0 * k, 0.0), (4.0 * k, 0.0), (2.0 * k, 2.0 * k)), Triangle(Coord { x: 0.0, y: 0.0 }, Coord { x: 2.0 * k, y: 0.0 }, Coord { x: 4.0 * k, y: 0.0 })];
         add("stitch.kite_with_zero_area_triangle".into(), Box::new(move || tris.stitch_triangulation().map(|mp| dig_mp(&mp)).unwrap_or(0xE)));
+    }
+    // ---- the deprecated TriangulateSpade entry points (their own copy of the snapping code), with a caller-supplied snap
+    // radius on half-lattice rings: vertices exactly equidistant from two registered coordinates inside the radius
+    {
+        #[allow(deprecated)]
+        use geo::algorithm::triangulate_spade::{SpadeTriangulationConfig, TriangulateSpade};
+        for i in 0..[1, 3, 3][scale as usize] {
+            let a = loop {
+                if let Some(x) = gen_kind(&mut r, "Polygon", 5) {
+                    break x;
+                }
+            };
+            if let geo::Geometry::Polygon(p) = a.to_geo(&Lat { ox: 0, oy: 0, sh: -1, shear: 0 }) {
+                // insert the midpoint of every second edge plus a point 0.25 off it: ties and near ties within radius 1
+                let mut v: Vec<Coord<f64>> = vec![];
+                for (j, l) in p.exterior().lines().enumerate() {
+                    v.push(l.start);
+                    if j % 2 == 0 {
+                        v.push(Coord { x: (l.start.x + l.end.x) / 2.0, y: (l.start.y + l.end.y) / 2.0 });
+                    }
+                }
+                let q = Polygon::new(LineString::new(v), vec![]);
+                for (radius, rn) in [(1.0, "r1"), (0.25, "r025")] {
+                    let q1 = q.clone();
+                    add(format!("legacy_spade.constrained_triangulation.{rn}.{i}"), Box::new(move || {
+                        #[allow(deprecated)]
+                        let t = TriangulateSpade::constrained_triangulation(&q1, SpadeTriangulationConfig { snap_radius: radius });
+                        t.map(|t| dig_tris(&t)).unwrap_or(0xE)
+                    }));
+                    let q2 = q.clone();
+                    add(format!("legacy_spade.constrained_outer_triangulation.{rn}.{i}"), Box::new(move || {
+                        #[allow(deprecated)]
+                        let t = TriangulateSpade::constrained_outer_triangulation(&q2, SpadeTriangulationConfig { snap_radius: radius });
+                        t.map(|t| dig_tris(&t)).unwrap_or(0xE)
+                    }));
+                }
+                let q3 = q.clone();
+                add(format!("legacy_spade.unconstrained_triangulation.{i}"), Box::new(move || {
+                    #[allow(deprecated)]
+                    let t = TriangulateSpade::unconstrained_triangulation(&q3);
+                    t.map(|t| dig_tris(&t)).unwrap_or(0xE)
+                }));
+            }
+        }
     }
     // ---- point-set algorithms
     let npts = [12, 300, 300][scale as usize];
